@@ -107,7 +107,8 @@ def _add_cycle_free(model: "Model", fluxes: Dict[str, float]) -> None:
     )
     objective_vars = []
     for rxn in model.reactions:
-        flux = fluxes[rxn.id]
+        # solver noise must not push the flux beyond the bounds
+        flux = min(max(fluxes[rxn.id], rxn.lower_bound), rxn.upper_bound)
         if rxn.boundary:
             rxn.bounds = (flux, flux)
             continue
